@@ -9,7 +9,7 @@ From Coq Require Import List Arith ZArith Bool.
 From Verif Require Import lib.Wire c15.Lts c15.Model c15.Spec c15.Proofs c15.Proofs_Chan c15.Proofs_Loc
   c15.Proofs_List c15.Proofs_Safe c15.Proofs_Init c15.Proofs_Once c15.Proofs_Thm c15.Proofs_Grow
   c15.Proofs_First c15.Proofs_Wild c15.Proofs_Live c15.Proofs_Dead c15.Proofs_Pend c15.Proofs_Idx c15.Proofs_Prog
-  c15.Proofs_Valid c15.Proofs_WildOK.
+  c15.Proofs_Valid c15.Proofs_WildOK c15.Proofs_Blk c15.Proofs_Obs c15.Proofs_Loc3 c15.Proofs_WSI c15.Proofs_TY c15.Proofs_Rule13.
 Import ListNotations.
 
 (* the checked tie: a label trace accepted by conform_case's search is the
@@ -175,6 +175,33 @@ Theorem c15_init_state_fresh_init : forall nt sl ml el,
                          (map (fun p => new_emit (fst p) (snd p)) el)).
 Proof. exact init_state_fresh_init. Qed.
 Print Assumptions c15_init_state_fresh_init.
+
+(* THE MONITOR'S NO-DEADLOCK CLAUSE (rule 13) ACCEPTS EVERY TRACE OF THE MODEL: for
+   every schedule, whenever the reached state is quiescent (nothing but environment
+   stimuli enabled - the only states in which the harness writes a stimulus label
+   and rule 13 is evaluated), the labels seen so far contain no operation that is
+   blocked without a stalled, unread, unclosed subscription of a matching type to
+   blame.  blocked_badly is the very function mon_go calls (Spec.v); the
+   configuration is the initial one (it never changes: run_oc). *)
+Theorem c15_monitor_rule13_accepts_model : forall st sched, wf_init st ->
+  quiescent step thrs stim (run step st sched) = true ->
+  blocked_badly (ocfg_of_state st) (trace step st sched) = None.
+Proof. exact rule13_accepts_model_init_l. Qed.
+Print Assumptions c15_monitor_rule13_accepts_model.
+
+(* the coupling between the visible trace and the state that the clause-by-clause
+   proofs rest on: started / returned operations and outstanding receives can be
+   read off the program counters, for every schedule *)
+Theorem c15_trace_state_coupling : forall st sched, fresh_init st -> Obs (run step st sched) (trace step st sched).
+Proof. exact obs_run. Qed.
+Print Assumptions c15_trace_state_coupling.
+
+Theorem c15_init_state_wf_init : forall nt sl ml el,
+  Forall (fun p => match fst p with Some tys => NoDup tys | None => True end) sl ->
+  wf_init (init_state nt (map (fun p => new_sub (fst p) (snd p)) sl) (map (fun p => new_emitter (fst p) (snd p)) ml)
+                      (map (fun p => new_emit (fst p) (snd p)) el)).
+Proof. exact init_state_wf_init. Qed.
+Print Assumptions c15_init_state_wf_init.
 
 (* the same for holders of the wildcard read lock *)
 Theorem c15_reader_progress_partial : forall st sched k e n todo, initial st ->
